@@ -117,6 +117,32 @@ def build (url : Bytes) (m : Meta) : Bytes :=
     ++ opt nDcClientId m.dcClientId
     ++ opt nDcClientSecret m.dcClientSecret
 
+
+/-! ### Configuration histories (`HttpServer.SetOAuthResourceMetadata` called several times) -/
+
+/-- What the server holds after a successful call: the derived well-known URL and the metadata. -/
+structure Config where
+  url : Bytes
+  md : Meta
+  deriving Repr, DecidableEq
+
+/-- One `SetOAuthResourceMetadata(m)` call. `murl = none`: deriving the well-known URL from
+`m.Resource` failed (net/url, not modelled). A refused call leaves the configuration untouched;
+an accepted one replaces it and rebuilds the challenge. -/
+def setMeta (st : Option Config) (murl : Option Bytes) (m : Meta) : Option Config :=
+  match validate m with
+  | some _ => st
+  | none =>
+    match murl with
+    | none => st
+    | some u => some { url := u, md := m }
+
+def configure (calls : List (Option Bytes × Meta)) : Option Config :=
+  calls.foldl (fun st c => setMeta st c.1 c.2) none
+
+/-- The WWW-Authenticate value put on 401 responses (`none`: header not set). -/
+def challenge (st : Option Config) : Option Bytes := st.map fun c => build c.url c.md
+
 /-! ### Generic header shape (used by the theorems and by the driver's canonical view) -/
 
 /-- The parameters `build` emits, in order. -/
